@@ -177,8 +177,9 @@ class BuiltinVal:
 
 
 class ClassVal:
-    def __init__(self, name):
+    def __init__(self, name, relpath=None):
         self.name = name
+        self.relpath = relpath
 
     def __repr__(self):
         return f"<class {self.name}>"
@@ -233,7 +234,7 @@ class State:
                     return memo[v.uid]
                 if isinstance(v, SymObj):
                     n = SymObj.__new__(SymObj)
-                    n.uid, n.stale, n.cls = v.uid, v.stale, v.cls
+                    n.__dict__.update({k: x for k, x in v.__dict__.items() if k != "attrs"})
                     memo[v.uid] = n
                     n.attrs = {k: cp(x) for k, x in v.attrs.items()}
                 elif isinstance(v, SList):
@@ -251,6 +252,10 @@ class State:
                     n.uid, n.stale = v.uid, v.stale
                     memo[v.uid] = n
                     n.items = {k: cp(x) for k, x in v.items.items()}
+                elif hasattr(v, "clone_mut"):
+                    n = v.clone_mut(cp)
+                    n.uid, n.stale = v.uid, v.stale
+                    memo[v.uid] = n
                 else:
                     raise Unsupported(f"clone {v!r}")
                 return n
